@@ -110,11 +110,12 @@ class ElementTraits<std::index_sequence<I...>, Parameter...>
 
     static constexpr auto TRAILING_ALIGNMENTS = calculate_trailing_alignments();
 
-    template <template <class> class Predicate, bool IsBrokenByPadding = false>
+    template <template <class> class Predicate, bool IsBrokenByPadding = false, bool IsBrokenBehindFixedSize = false>
     static constexpr auto calculate_consecutive_indices() noexcept
     {
         std::array<std::size_t, sizeof...(Parameter)> consecutive_indices{((void)I, SKIP)...};
         [[maybe_unused]] std::size_t index{};
+        [[maybe_unused]] bool is_previous_fixed_size{};
         (
             [&]
             {
@@ -125,6 +126,15 @@ class ElementTraits<std::index_sequence<I...>, Parameter...>
                         // there may be padding in front of this parameter, its bytes must not be compared
                         index = I;
                     }
+                    if constexpr (IsBrokenBehindFixedSize)
+                    {
+                        // A run that is compared for equality ends behind a FixedSize parameter: the operands may come
+                        // from vectors with different fixed sizes and only the end of the run tells whether they agree.
+                        if (is_previous_fixed_size)
+                        {
+                            index = I;
+                        }
+                    }
                     consecutive_indices[index] = I;
                 }
                 else
@@ -132,6 +142,8 @@ class ElementTraits<std::index_sequence<I...>, Parameter...>
                     index = I + 1;
                     consecutive_indices[I] = MANUAL;
                 }
+                is_previous_fixed_size =
+                    detail::ParameterTraits<Parameter>::TYPE == detail::ParameterType::FIXED_SIZE;
             }(),
             ...);
         return consecutive_indices;
@@ -145,7 +157,7 @@ class ElementTraits<std::index_sequence<I...>, Parameter...>
         calculate_consecutive_indices<detail::IsTriviallySwappable>()};
 
     static constexpr auto CONSECUTIVE_EQUALITY_MEMCMPABLE_INDICES{
-        calculate_consecutive_indices<detail::EqualityMemcmpCompatible, true>()};
+        calculate_consecutive_indices<detail::EqualityMemcmpCompatible, true, true>()};
 
     static constexpr auto CONSECUTIVE_LEXICOGRAPHICAL_MEMCMPABLE_INDICES{
         calculate_consecutive_indices<detail::LexicographicalMemcmpCompatible, true>()};
